@@ -35,15 +35,12 @@ OutcomesP(pairs, r) == IF pairs = <<>> THEN {"O"} ELSE {IF Fits(pairs[j][1], r) 
 -----------------------------------------------------------------------------
 (* Named deviations of the unchanged tree                                    *)
 
-\* Dev_AccumulationOrder: ISO text -> time_point adds the time of day, then the fraction, then the (negative) whole days.
-\* A pre-epoch instant that fits the target is rejected as out of range when the time-of-day part alone exceeds max(),
-\* when days*ticksPerDay alone is below the 64-bit minimum ("first calendar day of the range") or, for unsigned
-\* representations, as soon as the day number is negative (the value can still round to zero).
-AccOrderGuard(c, secs, u, r) ==
-  LET days == DivModSmall(secs, 86400).q
-      dayTicks == MulChain(days, TicksPerDay(u))
-      tod == Sub(c, dayTicks)
-  IN Lt(days, Zero) /\ (~RepSigned(r) \/ Gt(tod, RepMax(r)) \/ Lt(dayTicks, I64Min))
+\* Dev_AccumulationOrder (residue after fix b4c84ea): for dates before the epoch the parser counts the time of day backwards
+\* from the next midnight, i.e. with negative partial sums; an UNSIGNED representation rejects them although the value
+\* itself (a pre-epoch instant whose fraction rounds up to the epoch) is representable.
+\* Guard: unsigned representation and negative day number.  Signed targets: any rejection of a representable instant is
+\* a plain violation.
+AccOrderGuard(c, secs, u, r) == ~RepSigned(r) /\ Lt(DivModSmall(secs, 86400).q, Zero)
 Dev_AccumulationOrder(pairs, secs, u, r, obs) ==
   obs = "O" /\ \E j \in 1..Len(pairs) : Fits(pairs[j][1], r) /\ AccOrderGuard(pairs[j][1], secs, u, r)
 
@@ -56,16 +53,10 @@ FractionTooWide(fr, neg, u, r) ==
 IsValueOutcome(obs) == obs # "I" /\ obs # "O" /\ obs # "-"
 Dev_FractionCastWraps(fr, neg, u, r, obs) == FractionTooWide(fr, neg, u, r) /\ IsValueOutcome(obs)
 
-\* Dev_DaysFromCivilEdge: civil date -> day number is computed as era*146097 + (doe - 719468) in int64 with a guard on
-\* era*146097 only.  (i) within the last 719468 days below the 64-bit maximum era*146097 exceeds int64 and a representable
-\* instant is rejected (for uint64 day counts: everything above 2^63); (ii) just below the 64-bit minimum the guard
-\* passes and the sum wraps: a huge positive value is returned instead of out_of_range.
-Two64 == Pow2(64)
-EraDays(secs) == MulSmall(DivModSmall(AddSmall(DivModSmall(secs, 86400).q, 719468), 146097).q, 146097)
+\* Dev_DaysFromCivilEdge (residue after fix 0dda6ff): the day number is an int64, so day counts above 2^63 - which a
+\* uint64 days representation could hold - are rejected.  Guard: unsigned representation, day number > INT64_MAX.
 Dev_DaysFromCivilEdge(pairs, secs, r, obs) ==
-  \/ (obs = "O" /\ Gt(EraDays(secs), I64Max) /\ \E j \in 1..Len(pairs) : Fits(pairs[j][1], r))
-  \/ (Lt(DivModSmall(secs, 86400).q, I64Min) /\ Ge(EraDays(secs), I64Min) /\
-      \E j \in 1..Len(pairs) : obs = "V:" \o ToDec(Add(pairs[j][1], Two64)))
+  obs = "O" /\ ~RepSigned(r) /\ Gt(DivModSmall(secs, 86400).q, I64Max) /\ \E j \in 1..Len(pairs) : Fits(pairs[j][1], r)
 
 \* Dev_Feb29CommonYear: the day-of-month table has 29 for every February, so YYYY-02-29 of a common year is taken
 \* as March 1st (for tm: copied as written).
